@@ -302,11 +302,29 @@ def check_k3(chk, m, cfg, L):
             else:
                 return None
         return lo
+    # a loop-carried LOCAL that indexes argv (the count is kept in a local and written to c->argc once at the end): the same
+    # invariant 1 <= count <= N-1 at its loop head, assumed at the head and re-established on every arrival there
+    local_counters = {}
+    for start, p in segs:
+        for e in p.events:
+            if e.kind == "store" and e.ptr is not None:
+                root, off, var = ptr_parts(e.ptr)
+                if root == ("arg", ca) and argv_off <= off < argv_off + argv_sz and len(var) == 1:
+                    for x in paths.subexprs(var[0][0]):
+                        if x[0] == "sym":
+                            d_ = fn.defs.get(x[1])
+                            # (of the tokenising loop - the first one; the padding loop's own index is bounded by its loop condition)
+                            if d_ is not None and d_.op == "phi" and heads and d_.block.name == heads[0]:
+                                local_counters[x[1]] = d_.block.name
     for start, p in segs:
         sid = "do_tokenize[%s] %s -> %s" % (cfg, start.lstrip("%"), p.end)
         pr = Prover()
         A = Lin.atom("argc")
         first_head = start != fn.entry.name
+        for cn, hd in local_counters.items():
+            if start == hd:
+                pr.assume_le(Lin.const(1), Lin.atom("sym:" + cn))
+                pr.assume_le(Lin.atom("sym:" + cn), Lin.const(N - 1))
 
         def atom_of(x):
             if x[0] == "ld" and x[1] == argc_ptr:
@@ -377,6 +395,15 @@ def check_k3(chk, m, cfg, L):
                                        e.inst.loc, fn.name)
                             else:
                                 chk.unknown("K3.argv-store", sid, "index %s of argv not decided" % idx, e.inst.loc)
+        for cn, hd in local_counters.items():
+            if p.end == "cut:" + hd and cn in (getattr(p, "carried", None) or {}):
+                v = expr_to_lin(p.carried[cn], atom_of)
+                if all(isinstance(k, str) for k in v.atoms()) and pr.prove_le(Lin.const(1), v) and pr.prove_le(v, Lin.const(N - 1)):
+                    chk.ob("K3.argc-invariant", sid + " " + cn, True, "1 <= count <= %d re-established at the loop head for the local "
+                           "argument counter (count = %s)" % (N - 1, v), p.ret_inst.loc, fn.name)
+                else:
+                    chk.unknown("K3.argc-invariant", sid + " " + cn, "the local argument counter arrives at its loop head as %s: not shown "
+                                "to stay within [1, %d]" % (v, N - 1), p.ret_inst.loc)
         # invariant re-established on arrival at the first loop head (only when argv is indexed by the argc field itself)
         if uses_argc_field and (p.end.startswith("cut:") and heads and p.end == "cut:" + heads[0] or (p.end.startswith("cut:") and len(heads) == 1)):
             fin = None
